@@ -2,6 +2,12 @@ import json,sys
 props={json.loads(l)['id']:json.loads(l) for l in open('/verif/properties.jsonl')}
 T=open('/tmp/prompt.tmpl').read()
 hints={
+ 'C15':'; the demonstration may use two or three processes (fork/exec of a helper) synchronised with pipes so that the needed interleaving of calls is forced deterministically',
+ 'C16':'; the demonstration may kill a child process at a chosen point (for example with a ptrace/LD_PRELOAD shim or by making a file-system call fail or block) and then reopen the token directory in a fresh process',
+ 'C18':'; the demonstration should force the needed interleaving deterministically where possible - C_Initialize accepts application mutex callbacks (CreateMutex/LockMutex/UnlockMutex/DestroyMutex), which a demo can use to park one thread at a chosen lock acquisition while another runs - or else repeat the race often enough to fail reliably',
+ 'C17':'; think of unusual but well-formed argument values, stale handles, odd lengths, mechanism parameters, and of damaged files in the token directory or the configuration file',
+ 'C20':'; note that the worktree build uses OpenSSL and the file store only - the SQLite store (src/lib/object_store/DB*.cpp, configure with -DWITH_OBJECTSTORE_BACKEND_DB=ON in a second build directory) and the Botan backend (src/lib/crypto/Botan*.cpp, -DWITH_CRYPTO_BACKEND=botan) are not compiled by the default test build, so a change confined to them trivially passes the suite; build such a configuration yourself for the demonstration',
+ 'C14':'; softhsm2-util is built in _build/src/bin/util',
  'C05':'; make at least one of them concern persistence across a restart / new process or the on-disk encoding of an attribute kind rather than the in-process view',
  'C09':'; prefer failing paths deep inside a call (after some of its effects have been applied) over up-front argument checks',
  'C11':'; think of handle lifetime across logout, session close, object destruction and token re-initialisation',
